@@ -617,6 +617,19 @@ class Interp:
                     isinstance(rhs, (list, tuple)):
                 cur.extend(rhs)         # list += iterable extends in place
                 v = cur
+            elif isinstance(cur, set) and isinstance(rhs, (set, frozenset)) \
+                    and isinstance(st.op, (ast.BitOr, ast.BitAnd, ast.Sub,
+                                           ast.BitXor)):
+                # set |= &= -= ^= : the set object itself is changed (whoever
+                # else holds it sees the change)
+                {ast.BitOr: cur.update, ast.BitAnd: cur.intersection_update,
+                 ast.Sub: cur.difference_update,
+                 ast.BitXor: cur.symmetric_difference_update}[type(st.op)](rhs)
+                v = cur
+            elif isinstance(cur, dict) and isinstance(rhs, dict) and \
+                    isinstance(st.op, ast.BitOr):
+                cur.update(rhs)
+                v = cur
             else:
                 v = self.binop(st, st.op, cur, rhs)
             self.assign(st.target, v, env)
@@ -1339,6 +1352,22 @@ def module_env(tree, extra=None):
             elif isinstance(v, (ast.List, ast.Tuple, ast.Set)) and not v.elts:
                 glob.setdefault(tg.id, [] if isinstance(v, ast.List) else
                                 () if isinstance(v, ast.Tuple) else set())
+            elif isinstance(v, (ast.List, ast.Tuple, ast.Set, ast.Dict)):
+                # a literal container of constants
+                try:
+                    glob.setdefault(tg.id, ast.literal_eval(v))
+                except (ValueError, SyntaxError, TypeError):
+                    pass
+            elif isinstance(v, ast.Call) and isinstance(v.func, ast.Name) and \
+                    v.func.id in ("frozenset", "tuple", "set") and \
+                    len(v.args) <= 1 and not v.keywords:
+                try:
+                    arg = ast.literal_eval(v.args[0]) if v.args else ()
+                    glob.setdefault(tg.id, {"frozenset": frozenset,
+                                            "tuple": tuple,
+                                            "set": set}[v.func.id](arg))
+                except (ValueError, SyntaxError, TypeError):
+                    pass
             elif isinstance(v, ast.Call) and ast.unparse(v) in (
                     "object()", "dict()", "set()", "list()"):
                 glob.setdefault(tg.id, {"object()": object(), "dict()": {},
